@@ -13,6 +13,8 @@ Oracle (implementation only): the returned `(ix_sl, cost)` versus the real tree 
 postconditions on `tree.slice(...)`.
 """
 
+import json
+
 import cotengra as ctg
 from cotengra.slicer import ContractionCosts, SliceFinder
 
@@ -264,9 +266,16 @@ def full_state(c, us):
 
 
 def canon_state(s):
-    s = dict(s)
-    s["where"] = sorted(s["where"])
-    return s
+    """What must agree between model and implementation: the figures the property talks about and the
+    contraction tuples as a multiset (their order, the `_where` positions and the two steering tables are
+    internal freedom: a different but consistent order / heuristic must stay quiet)."""
+    return {"nslices": s["nslices"], "flops": s["flops"], "size": s["size"], "total_flops": s["total_flops"],
+            "original_flops": s["original_flops"], "size_dict": s["size_dict"],
+            "cons": sorted(json.dumps(c, sort_keys=True) for c in s["cons"])}
+
+
+def steering_state(s):
+    return {"fred": s["fred"], "wred": s["wred"]}
 
 
 def chain_corr(ctx, drv, case, net, tree):
@@ -298,6 +307,10 @@ def chain_corr(ctx, drv, case, net, tree):
     resp = drv.call("c07.remove", size_dict=sd, cons=cons0, removes=chain, touch=touch)
     ok = "states" in resp and [canon_state(s) for s in resp["states"]] == [canon_state(s) for s in states] \
         and resp.get("failed_at") == failed
+    if ok:
+        # informational only (reductions_inv is a statement about the model's tables)
+        same = [steering_state(s) for s in resp["states"]] == [steering_state(s) for s in states]
+        ctx.count("steering_tables_equal" if same else "steering_tables_differ")
     ctx.traces += 1
     if not ok:
         ctx.corr_broken("ContractionCosts state differs from the model along a remove chain",
@@ -339,8 +352,9 @@ def search_corr(ctx, drv, case, obs, net):
             [sz, c["total_flops"], c["nslices"]]
         if not ent or not ent[0]["valid"] or ent[0]["cost"] != c:
             why = "returned entry not valid in the model"
-        elif score != resp["min_score"]:
-            why = "returned entry is not minimal for best_scorer"
+        else:
+            # which valid entry `best` prefers is not part of the property (tie-breaks, ranking): counted only
+            ctx.count("best_is_model_min" if score == resp["min_score"] else "best_differs_from_model_min")
     if why:
         ctx.corr_broken("search: model and implementation disagree on " + why, case)
         return False
@@ -405,7 +419,6 @@ def check_case(ctx, drv, case):
 
 def run(ctx, drv):
     import glob
-    import json
     import os
     from .common import VERIF
     for f in sorted(glob.glob(os.path.join(VERIF, "corpus", "C07", "*.json"))):
